@@ -342,6 +342,9 @@ func (ls *LanceroSource) PrepareChannels() error {
 	cnum := ls.firstRowChanNum
 	thisColFirstCnum := cnum - ls.chanSepColumns
 	ls.groupKeysSorted = make([]GroupIndex, 0)
+	// The row count and any mismatch are those of the cards of this run, not of an earlier one.
+	ls.subframeDivisions = 0
+	ls.mixedRowCounts = false
 	for _, device := range ls.active {
 		// For Lancero sources, subframeDivisions = the number of rows.
 		// For sources with multiple LanceroDevice objects, its meaning is ambiguous, but we'll
